@@ -307,35 +307,47 @@ namespace PyxProps.C02
 open Pyx.Meta
 
 /-- C02#2 — THE referential-read clause as one theorem, for a general layer list and EVERY sufficient fuel.
-    Hypothesis (acyclicity): a rank `rk` decreases along every target link a read follows (`RankDecreases`; without it
-    the Python code itself recurses without end).  Then for every fuel ≥ `(rk x + 1) * (layerBound sch + 2)`:
-    an attribute that no association formalises reads the instance's own id (or is unset); a referential attribute reads
-    the converged value (`readValue`) of the identifying attribute of the partner across the outermost layer that HAS a
-    partner, and is unset when no layer has one.  The result no longer depends on the fuel (`fuel_monotone`). -/
-theorem referential_read_clause (sch : Schema) (at_ : Attrs) (s : State) (rk : Inst → Nat) (hdec : RankDecreases s rk)
-    (x : Inst) (name : String) (fuel : Nat) (hf : (rk x + 1) * (layerBound sch + 2) ≤ fuel) :
+    Hypothesis (acyclicity of the READS, audit round 2): a rank on read states (instance, attribute) drops from a read to the
+    read it continues with (`ReadRank`: only along the layers of THAT attribute, only to the partner's identifying attribute
+    it reads; without it the Python code itself recurses without end).  A ring or a self-link of instances whose referential
+    attribute reads the partner's OWN id needs no rank along the link at all (examples below).  Then for every fuel ≥
+    `(rk x name + 1) * (layerBound sch + 2)`: an attribute that no association formalises reads the instance's own id (or is
+    unset); a referential attribute reads the converged value (`readValue`) of the identifying attribute of the partner
+    across the outermost layer that HAS a partner, and is unset when no layer has one.  The result no longer depends on the
+    fuel (`fuel_monotone`). -/
+theorem referential_read_clause (sch : Schema) (at_ : Attrs) (s : State) (rk : Inst → String → Nat)
+    (hdec : ReadRank sch s rk) (x : Inst) (name : String) (fuel : Nat)
+    (hf : (rk x name + 1) * (layerBound sch + 2) ≤ fuel) :
     getAttr sch at_ s fuel x name =
       match (formalFrom (s.kindOf x) name 0 sch).reverse with
       | [] => if at_.idName (s.kindOf x) = some name then some (s.idOf x) else none
       | layers => readSpec (readValue sch at_ s rk) s x layers :=
   getAttr_spec sch at_ s rk hdec x name fuel (by rw [bnd_eq]; exact hf)
 
-theorem fuel_monotone (sch : Schema) (at_ : Attrs) (s : State) (rk : Inst → Nat) (hdec : RankDecreases s rk)
-    (x : Inst) (name : String) (f1 f2 : Nat) (h1 : (rk x + 1) * (layerBound sch + 2) ≤ f1)
-    (h2 : (rk x + 1) * (layerBound sch + 2) ≤ f2) :
+theorem fuel_monotone (sch : Schema) (at_ : Attrs) (s : State) (rk : Inst → String → Nat) (hdec : ReadRank sch s rk)
+    (x : Inst) (name : String) (f1 f2 : Nat) (h1 : (rk x name + 1) * (layerBound sch + 2) ≤ f1)
+    (h2 : (rk x name + 1) * (layerBound sch + 2) ≤ f2) :
     getAttr sch at_ s f1 x name = getAttr sch at_ s f2 x name :=
-  getAttr_stable sch at_ s rk hdec (rk x) x rfl name f1 f2 (by rw [bnd_eq]; exact h1) (by rw [bnd_eq]; exact h2)
+  getAttr_stable sch at_ s rk hdec (rk x name) x name rfl f1 f2 (by rw [bnd_eq]; exact h1) (by rw [bnd_eq]; exact h2)
 
-/-- C02#3 — the fuel the driver uses, `(s.count + 1) * (layerBound sch + 2)`, is sufficient for every instance whose rank
-    is at most `s.count` (any acyclic link state over `s.count` instances admits such a rank): the driver's referential
-    reads are the converged values, never an out-of-fuel `none` -/
-theorem driver_fuel_sufficient (sch : Schema) (at_ : Attrs) (s : State) (rk : Inst → Nat) (hdec : RankDecreases s rk)
-    (x : Inst) (hx : rk x ≤ s.count) (name : String) :
-    getAttr sch at_ s ((s.count + 1) * (layerBound sch + 2)) x name = readValue sch at_ s rk x name := by
-  unfold readValue
-  apply getAttr_stable sch at_ s rk hdec (rk x) x rfl
+/-- C02#3 — the fuel the driver uses is `driverFuel sch s = (s.count + layerBound sch + 1) * (layerBound sch + 2)` — the SAME
+    definition in Driver/C02.lean and here.  It is sufficient for every read whose rank is at most `s.count + layerBound sch`:
+    the driver's referential reads are the converged values, never an out-of-fuel `none` -/
+theorem driver_fuel_sufficient (sch : Schema) (at_ : Attrs) (s : State) (rk : Inst → String → Nat)
+    (hdec : ReadRank sch s rk) (x : Inst) (name : String) (hx : rk x name ≤ s.count + layerBound sch) :
+    getAttr sch at_ s (driverFuel sch s) x name = readValue sch at_ s rk x name := by
+  unfold readValue driverFuel
+  apply getAttr_stable sch at_ s rk hdec (rk x name) x name rfl
   · rw [bnd_eq]; exact Nat.mul_le_mul_right _ (by omega)
   · exact Nat.le_refl _
+
+/-- the two sources of a read rank: an instance rank that drops along every target link (the hypothesis of audit round 1,
+    rank ≤ number of instances for an acyclic link state), and — in a well-kinded state — a rank on the ATTRIBUTES of the
+    schema that drops along every key pair (a property of the schema alone; every state, rings of instances included) -/
+theorem read_rank_sources (sch : Schema) (s : State) :
+    (∀ rk : Inst → Nat, RankDecreases s rk → ReadRank sch s (fun x _ => rk x)) ∧
+    (∀ ar : Kind → String → Nat, AttrRank sch ar → KindsOk sch s → ReadRank sch s (fun x name => ar (s.kindOf x) name)) :=
+  ⟨readRank_of_rankDecreases sch s, fun ar har hk => readRank_of_attrRank sch s ar har hk⟩
 
 /-! non-vacuity — the audit's counterexample: R7 N.Next_Id → Z.Id and the reflexive R2 N.Next_Id → N.Next_Id (a
     referential IDENTIFYING key), chain N0 → N1 → N2 → N3 → N4 → Z5.  Every Ni reads Z's id (1); the old fuel
@@ -352,7 +364,7 @@ def stChain : State :=
       if i = 0 then { src := fun x => if x = 5 then [4] else [], tgt := fun x => if x = 4 then [5] else [] }
       else { src := fun x => if 1 ≤ x ∧ x ≤ 4 then [x - 1] else [], tgt := fun x => if x < 4 then [x + 1] else [] } }
 def atChain : Attrs := { idName := fun k => if k = 1 then some "Id" else none }
-example : RankDecreases stChain (fun x => 5 - x) := by
+theorem stChain_rank : RankDecreases stChain (fun x => 5 - x) := by
   intro i x o h
   by_cases hi : i = 0
   · subst hi
@@ -363,10 +375,67 @@ example : RankDecreases stChain (fun x => 5 - x) := by
     · simp [stChain, hi, hx] at h; subst h
       exact Nat.sub_lt_sub_left (Nat.lt_of_lt_of_le hx (by decide)) (Nat.lt_succ_self x)
     · simp [stChain, hi, hx] at h
-example : ((List.range 5).map fun x => getAttr schChain atChain stChain ((stChain.count + 1) * (layerBound schChain + 2)) x "Next_Id") =
+example : ((List.range 5).map fun x => getAttr schChain atChain stChain (driverFuel schChain stChain) x "Next_Id") =
       [some 1, some 1, some 1, some 1, some 1] ∧
     ((List.range 5).map fun x => getAttr schChain atChain stChain (2 * schChain.length + 4) x "Next_Id") =
       [none, none, some 1, some 1, some 1] := by decide
+/-- the clause and the driver's fuel APPLIED to the chain: N0 reads, through five hops, the id of Z5 -/
+example : getAttr schChain atChain stChain (driverFuel schChain stChain) 0 "Next_Id" =
+    readValue schChain atChain stChain (fun x _ => 5 - x) 0 "Next_Id" :=
+  driver_fuel_sufficient schChain atChain stChain (fun x _ => 5 - x)
+    (readRank_of_rankDecreases schChain stChain _ stChain_rank) 0 "Next_Id" (by decide)
+
+/-! the audit's two states of the PLAIN reflexive shape (R2: N.Next_Id → N.Id, phrases precedes / succeeds): the ring
+    `relate 0 1; relate 1 0` and a self-link.  No instance rank exists (`RankDecreases` is unsatisfiable: it would need
+    rk 1 < rk 0 < rk 1, resp. rk 0 < rk 0), but the read of Next_Id continues with the partner's OWN id, which is the end of
+    the read: the attribute rank Next_Id ↦ 1, Id ↦ 0 is a `ReadRank`, and the clause gives the reads. -/
+def schRefl : Schema :=
+  [{ rel := "R2", srcKind := 0, srcKeys := ["Next_Id"], srcMany := false, srcCond := true, srcPhrase := "precedes",
+     tgtKind := 0, tgtKeys := ["Id"], tgtMany := false, tgtCond := true, tgtPhrase := "succeeds" }]
+def atRefl : Attrs := { idName := fun _ => some "Id" }
+def arRefl : Kind → String → Nat := fun _ name => if name = "Next_Id" then 1 else 0
+def stRing : State :=
+  { init with count := 2, idOf := fun x => x + 1, pool := fun _ => [0, 1]
+              links := fun _ => { src := fun x => if x = 0 then [1] else if x = 1 then [0] else [],
+                                  tgt := fun x => if x = 0 then [1] else if x = 1 then [0] else [] } }
+def stSelf : State :=
+  { init with count := 1, idOf := fun x => x + 1, pool := fun _ => [0]
+              links := fun _ => { src := fun x => if x = 0 then [0] else [], tgt := fun x => if x = 0 then [0] else [] } }
+example : (¬ ∃ rk, RankDecreases stRing rk) ∧ (¬ ∃ rk, RankDecreases stSelf rk) := by
+  constructor
+  · intro ⟨rk, h⟩
+    have h1 := h 0 0 1 (by decide)
+    have h2 := h 0 1 0 (by decide)
+    omega
+  · intro ⟨rk, h⟩
+    have h1 := h 0 0 0 (by decide)
+    omega
+theorem schRefl_attrRank : AttrRank schRefl arRefl := by
+  intro a ha p hp
+  simp only [schRefl, List.mem_singleton] at ha
+  subst ha
+  simp only [keyPairs, List.zip_cons_cons, List.zip_nil_right, List.mem_singleton] at hp
+  subst hp
+  decide
+theorem refl_kindsOk (s : State) (hk : ∀ x, s.kindOf x = 0) : KindsOk schRefl s := by
+  intro i a x o ha _
+  have : a ∈ schRefl := List.mem_of_getElem? ha
+  simp only [schRefl, List.mem_singleton] at this
+  subst this
+  exact hk o
+example : ReadRank schRefl stRing (fun x name => arRefl (stRing.kindOf x) name) ∧
+    ReadRank schRefl stSelf (fun x name => arRefl (stSelf.kindOf x) name) :=
+  ⟨readRank_of_attrRank schRefl stRing arRefl schRefl_attrRank (refl_kindsOk stRing (fun _ => rfl)),
+   readRank_of_attrRank schRefl stSelf arRefl schRefl_attrRank (refl_kindsOk stSelf (fun _ => rfl))⟩
+/-- the clause applied on the ring: with the driver's fuel, instance 0 reads the id of its partner 1 (and 1 that of 0); on the
+    self-link instance 0 reads its own id -/
+example : getAttr schRefl atRefl stRing (driverFuel schRefl stRing) 0 "Next_Id" =
+      readValue schRefl atRefl stRing (fun x name => arRefl (stRing.kindOf x) name) 0 "Next_Id" :=
+  driver_fuel_sufficient schRefl atRefl stRing _
+    (readRank_of_attrRank schRefl stRing arRefl schRefl_attrRank (refl_kindsOk stRing (fun _ => rfl))) 0 "Next_Id" (by decide)
+example : getAttr schRefl atRefl stRing (driverFuel schRefl stRing) 0 "Next_Id" = some 2 ∧
+    getAttr schRefl atRefl stRing (driverFuel schRefl stRing) 1 "Next_Id" = some 1 ∧
+    getAttr schRefl atRefl stSelf (driverFuel schRefl stSelf) 0 "Next_Id" = some 1 := by decide
 
 end PyxProps.C02
 
